@@ -658,7 +658,11 @@ def run(rep):
             nm = rep.rng.choice(names)
             choice = (rep.rng.choice([nm, nm, "./" + nm, "sub/" + nm, "../w/" + nm, T_MARK + "/j1/" + nm]),
                       rep.rng.choice(["e", "stdin"]))
-            vres.append(run_virtual_case(base, sp, jl, i, choice))
+            # also without any -J: then only an absolute path can resolve (it bypasses the search)
+            vjl = [] if rep.rng.random() < 0.35 else jl
+            if not vjl and rep.rng.random() < 0.7:
+                choice = (T_MARK + "/" + rep.rng.choice(["j1", "j2", "w"]) + "/" + nm, choice[1])
+            vres.append(run_virtual_case(base, sp, vjl, i, choice))
         vmo = vlib.model([r["line"] for r in vres])
         for r, m in zip(vres, vmo):
             key = json.dumps(r["replay"], sort_keys=True)
